@@ -42,8 +42,21 @@ def general_rate_like(r, model, reactants, k):
     """A general (expression) rate: sum of positive terms built on the reactants (no cancellation)."""
     kname = ["num", k]
     terms = [["*", kname] + [["sp", s] for s in reactants]] if reactants else [kname]
-    form = r.choice(["plain", "plus_const", "sat", "exp", "pow", "max"])
+    form = r.choice(["plain", "plus_const", "sat", "exp", "pow", "max", "step", "volmax", "volmin", "volabs"])
     base = terms[0]
+    if form == "step":
+        # a rate gated at an INTEGER threshold: counts sit exactly on it, and Heaviside(0) is 1 ("at least n copies")
+        pool = list(reactants) + [x for x in (model.get("species") or []) if x not in reactants]
+        if pool:
+            return ["*", base, ["heaviside", ["-", ["sp", r.choice(pool)], ["num", float(r.choice([1, 2, 3]))]]]]
+        return base
+    # the volume symbol inside every argument position of max / min / abs (it reads 1 where no volume is in play)
+    if form == "volmax":
+        return ["*", base, ["max", ["num", 0.25], ["/", ["num", 1.0], ["vol"]]]]
+    if form == "volmin":
+        return ["*", base, ["min", ["num", 2.0], ["vol"], ["+", ["num", 0.5], ["*", ["num", 0.5], ["vol"]]]]]
+    if form == "volabs":
+        return ["*", base, ["+", ["num", 0.5], ["abs", ["-", ["vol"], ["num", 1.5]]]]]
     if form == "plain":
         return base
     if form == "plus_const":
